@@ -302,3 +302,20 @@ Proof.
   - injection H as <-. reflexivity.
   - destruct (step c s a) eqn:E; [|discriminate]. rewrite (IHl _ _ H). eapply step_ctx; eauto.
 Qed.
+
+(* ---------------------------------------------------------------- completion clears IsRunning *)
+
+(** Whatever kind of completion removes a command from a queue (a no-op
+    executed by processNoopCommand, a response matched by
+    processLaunchKernelReturn), the queue is not marked as running afterwards. *)
+Lemma step_completion_clears_running c s l s' q qq qq' :
+  fifo_inv s -> step c s l = Some s' ->
+  nth_error (queues s) q = Some qq -> nth_error (queues s') q = Some qq' ->
+  q_done qq' <> q_done qq -> q_running qq' = false.
+Proof.
+  intros I H Hq Hq' D. step_inv H; simpl in *; try congruence.
+  all: apply nth_error_upd_inv in Hq'; destruct Hq' as (x & Hx & ->).
+  all: assert (x = qq) by congruence; subst x.
+  all: match goal with |- context [if Nat.eqb ?a ?b then _ else _] => destruct (Nat.eqb a b) eqn:E end; simpl in *; try congruence.
+  all: apply Nat.eqb_eq in E; subst; congruence.
+Qed.
